@@ -7,6 +7,7 @@ import EtVerif.Proofs.Matrix
 import EtVerif.Proofs.Canon
 import EtVerif.Proofs.Distrust
 import EtVerif.Proofs.VecDot
+import EtVerif.Proofs.Loop
 import EtVerif.Props.C04
 import EtVerif.Props.C08
 import EtVerif.Props.C10
@@ -860,5 +861,403 @@ theorem prepare_valid (k : Consts K) (s : Store K) {r : ComputeReq K} (h : Valid
   · intro t ht
     subst ht
     exact ⟨Mg.wf_mono t3 (by unfold docDim; omega), t4⟩
+
+/-! ### well-formedness of the power iterates -/
+
+theorem wf_vecScale {n : Nat} (a : K) {p : Vec K} (h : WF n p.entries) :
+    WF n (Vec.scale a p).entries := by
+  unfold Vec.scale
+  split
+  · exact Mg.wf_nil _
+  · exact wf_scaleEntries a h
+
+theorem wf_stepEntries {n : Nat} {ct : List (Row K)} (hct : ct.length = n) {ap : List (Entry K)}
+    (hap : WF n ap) (q : K) (t : List (Entry K)) : WF n (stepEntries ct ap q t) := by
+  unfold stepEntries
+  apply wf_addEntries _ hap
+  split
+  · exact Mg.wf_nil _
+  · apply wf_scaleEntries
+    rw [← hct]; exact wf_mulVecEntries ct t
+
+theorem wf_iterate {n : Nat} {ct : List (Row K)} (hct : ct.length = n) {ap : List (Entry K)}
+    (hap : WF n ap) (q : K) {t0 : List (Entry K)} (ht : WF n t0) (m : Nat) :
+    WF n (iterate ct ap q m t0) := by
+  unfold iterate
+  induction m with
+  | zero => exact ht
+  | succ m ih =>
+    rw [Function.iterate_succ_apply']
+    exact wf_stepEntries hct hap q _
+
+/-! ### shapes after alignment, without well-formedness (for the exact 400 characterisation) -/
+
+theorem setDim_major' (M : CSM K) (r c : Nat) : (M.setDim r c).major = r := by
+  unfold CSM.setDim; simp
+
+theorem setDim_minor' (M : CSM K) (r c : Nat) : (M.setDim r c).minor = c := by
+  unfold CSM.setDim; simp
+
+theorem vec_setDim_dim (v : Vec K) (d : Nat) : (v.setDim d).dim = d := by
+  unfold Vec.setDim; split <;> rfl
+
+theorem alignPre_shape {c0 : CSM K} (hsq : c0.major = c0.minor) (pOpt : Option (Vec K)) :
+    (alignPre c0 pOpt).1.major = (alignPre c0 pOpt).2.2 ∧
+    (alignPre c0 pOpt).1.minor = (alignPre c0 pOpt).2.2 ∧
+    (alignPre c0 pOpt).2.1.dim = (alignPre c0 pOpt).2.2 := by
+  cases pOpt with
+  | none => exact ⟨rfl, hsq.symm, rfl⟩
+  | some p =>
+    simp only [alignPre]
+    by_cases h1 : p.dim < c0.major
+    · rw [if_pos h1]; exact ⟨rfl, hsq.symm, vec_setDim_dim _ _⟩
+    · rw [if_neg h1]
+      by_cases h2 : c0.major < p.dim
+      · rw [if_pos h2]; exact ⟨setDim_major' _ _ _, setDim_minor' _ _ _, rfl⟩
+      · rw [if_neg h2]; exact ⟨rfl, hsq.symm, by simp only; omega⟩
+
+theorem alignInit_shape {x : CSM K × Vec K × Nat} (h1 : x.1.major = x.2.2)
+    (h2 : x.1.minor = x.2.2) (h3 : x.2.1.dim = x.2.2) (tOpt : Option (Vec K)) :
+    (alignInit x tOpt).1.major = (alignInit x tOpt).1.minor ∧
+    (alignInit x tOpt).2.1.dim = (alignInit x tOpt).1.major := by
+  cases tOpt with
+  | none => exact ⟨h1.trans h2.symm, h3.trans h1.symm⟩
+  | some t =>
+    simp only [alignInit]
+    by_cases c1 : t.dim < x.2.2
+    · rw [if_pos c1]; exact ⟨h1.trans h2.symm, h3.trans h1.symm⟩
+    · rw [if_neg c1]
+      by_cases c2 : x.2.2 < t.dim
+      · rw [if_pos c2]
+        exact ⟨(setDim_major' _ _ _).trans (setDim_minor' _ _ _).symm,
+          (vec_setDim_dim _ _).trans (setDim_major' _ _ _).symm⟩
+      · rw [if_neg c2]; exact ⟨h1.trans h2.symm, h3.trans h1.symm⟩
+
+/-- for a square loaded matrix the last stage never fails -/
+theorem finish_isSome (k : Consts K) (r : ComputeReq K) {c0 : CSM K} (hsq : c0.major = c0.minor)
+    (pOpt tOpt : Option (Vec K)) :
+    ∃ eff, finish k r (alignInit (alignPre c0 pOpt) tOpt) = some eff := by
+  obtain ⟨a, b, c⟩ := alignPre_shape hsq pOpt
+  obtain ⟨d, e⟩ := alignInit_shape a b c tOpt
+  exact ⟨_, finish_eq k r _ _ _ _ d e⟩
+
+theorem loadInlineMatrix_square {m : IMatrix K} {c0 : CSM K} (h : loadInlineMatrix m = some c0) :
+    c0.major = c0.minor := by
+  classical
+  rw [loadInlineMatrix_eq] at h
+  split at h
+  · cases h; rfl
+  · cases h
+
+/-! ### GET bodies: `entriesOf` -/
+
+/-- cells of a row table whose first row has number `k` -/
+def cellsFrom (rows : List (Row K)) (k : Nat) : List (Nat × Nat × K) :=
+  ((rows.zipIdx k).map fun (r, i) => r.map fun e => (i, e.idx, e.val)).flatten
+
+theorem entriesOf_eq (M : CSM K) : entriesOf M = cellsFrom M.rows 0 := rfl
+
+@[simp] theorem cellsFrom_nil (k : Nat) : cellsFrom ([] : List (Row K)) k = [] := rfl
+
+theorem cellsFrom_cons (r : Row K) (rs : List (Row K)) (k : Nat) :
+    cellsFrom (r :: rs) k = (r.map fun e => (k, e.idx, e.val)) ++ cellsFrom rs (k + 1) := by
+  simp [cellsFrom, List.zipIdx_cons]
+
+theorem mem_cellsFrom {rows : List (Row K)} {k i j : Nat} {v : K} :
+    (i, j, v) ∈ cellsFrom rows k ↔ k ≤ i ∧ (⟨j, v⟩ : Entry K) ∈ rows.getD (i - k) [] := by
+  induction rows generalizing k with
+  | nil => simp
+  | cons r rs ih =>
+    rw [cellsFrom_cons, List.mem_append, ih, List.mem_map]
+    constructor
+    · rintro (⟨e, he, heq⟩ | ⟨h1, h2⟩)
+      · simp only [Prod.mk.injEq] at heq
+        obtain ⟨rfl, rfl, rfl⟩ := heq
+        refine ⟨le_refl _, ?_⟩
+        rw [Nat.sub_self]; exact he
+      · refine ⟨by omega, ?_⟩
+        have : i - k = (i - (k + 1)) + 1 := by omega
+        rw [this]; exact h2
+    · rintro ⟨h1, h2⟩
+      by_cases hk : i = k
+      · left
+        subst hk
+        rw [Nat.sub_self] at h2
+        exact ⟨⟨j, v⟩, h2, rfl⟩
+      · right
+        have : i - k = (i - (k + 1)) + 1 := by omega
+        rw [this] at h2
+        exact ⟨by omega, h2⟩
+
+/-- a GET body lists `(i, j, v)` exactly when `v` is stored at row `i`, column `j` -/
+theorem mem_entriesOf {M : CSM K} {i j : Nat} {v : K} :
+    (i, j, v) ∈ entriesOf M ↔ (⟨j, v⟩ : Entry K) ∈ M.rows.getD i [] := by
+  rw [entriesOf_eq, mem_cellsFrom]; simp
+
+/-- dense reading of a list of cells: the sum of the listed values at `(i, j)` -/
+def denCells (es : List (Nat × Nat × K)) (i j : Nat) : K :=
+  ((es.filter fun e => decide (e.1 = i) && decide (e.2.1 = j)).map (·.2.2)).sum
+
+theorem denCells_append (a b : List (Nat × Nat × K)) (i j : Nat) :
+    denCells (a ++ b) i j = denCells a i j + denCells b i j := by
+  simp [denCells]
+
+theorem denCells_row (r : Row K) (k i j : Nat) :
+    denCells (r.map fun e => (k, e.idx, e.val)) i j = if k = i then denE r j else 0 := by
+  induction r with
+  | nil => simp [denCells]
+  | cons e r ih =>
+    rw [List.map_cons, ← List.singleton_append, denCells_append, ih, denE_cons]
+    by_cases hk : k = i <;> by_cases he : e.idx = j <;> simp [denCells, hk, he]
+
+theorem denCells_cellsFrom (rows : List (Row K)) (k i j : Nat) :
+    denCells (cellsFrom rows k) i j = if k ≤ i then denE (rows.getD (i - k) []) j else 0 := by
+  induction rows generalizing k with
+  | nil => simp [denCells]
+  | cons r rs ih =>
+    rw [cellsFrom_cons, denCells_append, denCells_row, ih]
+    by_cases hk : k = i
+    · subst hk; simp
+    · by_cases hle : k ≤ i
+      · have h1 : k + 1 ≤ i := by omega
+        have : i - k = (i - (k + 1)) + 1 := by omega
+        rw [if_neg hk, if_pos h1, if_pos hle, this]; simp
+      · have h1 : ¬ k + 1 ≤ i := by omega
+        rw [if_neg hk, if_neg h1, if_neg hle]; simp
+
+/-- the dense reading of a GET body is the dense content of the stored matrix -/
+theorem denCells_entriesOf (M : CSM K) (i j : Nat) :
+    denCells (entriesOf M) i j = denRows M.rows i j := by
+  rw [entriesOf_eq, denCells_cellsFrom]; simp [denRows]
+
+/-! ### a GET body sent back inline reproduces the matrix -/
+
+/-- no stored value is zero -/
+def NoZero (M : CSM K) : Prop := ∀ i, ∀ e ∈ M.rows.getD i [], e.val ≠ 0
+
+/-- the inline body a GET answers with -/
+def renderI (M : CSM K) : IMatrix K :=
+  ⟨(M.major : Int), (entriesOf M).map fun (i, j, v) => ((i : Int), (j : Int), v)⟩
+
+/-- cells of a row table as `NewCSRMatrix` coordinates -/
+def cooFrom (rows : List (Row K)) (k : Nat) : List (Coo K) :=
+  (cellsFrom rows k).map fun (i, j, v) => ⟨i, j, v⟩
+
+theorem cooFrom_cons (r : Row K) (rs : List (Row K)) (k : Nat) :
+    cooFrom (r :: rs) k = (r.map fun e => (⟨k, e.idx, e.val⟩ : Coo K)) ++ cooFrom rs (k + 1) := by
+  simp [cooFrom, cellsFrom_cons, List.map_map, Function.comp_def]
+
+theorem cooOfI_renderI (M : CSM K) : cooOfI (renderI M) = cooFrom M.rows 0 := by
+  unfold cooOfI renderI cooFrom
+  rw [List.map_map, entriesOf_eq]
+  apply List.map_congr_left
+  rintro ⟨i, j, v⟩ _
+  simp
+
+theorem bucketRow_append (inc : Bool) (a b : List (Coo K)) (i : Nat) :
+    Mx.bucketRow inc (a ++ b) i = Mx.bucketRow inc a i ++ Mx.bucketRow inc b i := by
+  simp [Mx.bucketRow]
+
+theorem bucketRow_row {r : Row K} (hnz : ∀ e ∈ r, e.val ≠ 0) (k i : Nat) :
+    Mx.bucketRow false (r.map fun e => (⟨k, e.idx, e.val⟩ : Coo K)) i = if k = i then r else [] := by
+  induction r with
+  | nil => simp
+  | cons e r ih =>
+    rw [List.map_cons, Mx.bucketRow_cons, ih (fun x hx => hnz x (by simp [hx]))]
+    have he : e.val ≠ 0 := hnz e (by simp)
+    by_cases hk : k = i <;> simp [hk, he]
+
+theorem bucketRow_cooFrom {rows : List (Row K)} (hnz : ∀ r ∈ rows, ∀ e ∈ r, e.val ≠ 0)
+    (k i : Nat) :
+    Mx.bucketRow false (cooFrom rows k) i = if k ≤ i then rows.getD (i - k) [] else [] := by
+  induction rows generalizing k with
+  | nil => simp [cooFrom]
+  | cons r rs ih =>
+    rw [cooFrom_cons, bucketRow_append, bucketRow_row (hnz r (by simp)),
+      ih (fun r' hr' => hnz r' (by simp [hr']))]
+    by_cases hk : k = i
+    · subst hk; simp
+    · by_cases hle : k ≤ i
+      · have h1 : k + 1 ≤ i := by omega
+        have : i - k = (i - (k + 1)) + 1 := by omega
+        rw [if_neg hk, if_pos h1, if_pos hle, this]; simp
+      · have h1 : ¬ k + 1 ≤ i := by omega
+        rw [if_neg hk, if_neg h1, if_neg hle]; simp
+
+theorem sortByIdx_of_sorted {l : List (Entry K)} (h : Sorted l) : sortByIdx l = l := by
+  induction l with
+  | nil => rfl
+  | cons e l ih =>
+    rw [Mx.sortByIdx_cons, ih h.tail]
+    cases l with
+    | nil => rfl
+    | cons x xs =>
+      have := h.head_lt x (by simp)
+      simp [insertByIdx, this]
+
+theorem noZero_mem {M : CSM K} (h : NoZero M) : ∀ r ∈ M.rows, ∀ e ∈ r, e.val ≠ 0 := by
+  intro r hr e he
+  obtain ⟨i, _, rfl⟩ := Mx.mem_iff_getD.mp hr
+  exact h i e he
+
+theorem inRange_renderI {M : CSM K} (hw : WFM M) (hsq : M.major = M.minor) :
+    InRangeM (renderI M) := by
+  intro e he
+  obtain ⟨⟨i, j, v⟩, hm, rfl⟩ := List.mem_map.mp he
+  have hm' := mem_entriesOf.mp hm
+  have hi : i < M.major := by
+    by_contra hge
+    rw [Mx.getD_of_ge (by rw [hw.1]; omega)] at hm'
+    cases hm'
+  have hj : j < M.minor := (Mx.WFM.row hw i).2 _ hm'
+  simp only [renderI]
+  omega
+
+/-- A GET body PUT back (or sent inline to `/compute`) is accepted and reproduces the stored rows
+    and dimensions. -/
+theorem load_renderI {M : CSM K} (hw : WFM M) (hsq : M.major = M.minor) (hnz : NoZero M)
+    (h1 : 1 ≤ M.major) :
+    loadInlineMatrix (renderI M) = some ⟨M.major, M.major, M.rows, []⟩ := by
+  classical
+  rw [loadInlineMatrix_eq, if_pos ⟨by simp only [renderI]; omega, inRange_renderI hw hsq⟩]
+  have hsz : (renderI M).size.toNat = M.major := by simp [renderI]
+  rw [hsz, cooOfI_renderI]
+  have hrows : (CSM.newCSR M.major M.major (cooFrom M.rows 0) false).rows = M.rows := by
+    apply List.ext_getElem?
+    intro i
+    rw [Mx.newCSR_getElem?, bucketRow_cooFrom (noZero_mem hnz)]
+    by_cases hi : i < M.major
+    · have hi' : i < M.rows.length := by rw [hw.1]; exact hi
+      rw [if_pos hi, if_pos (Nat.zero_le _), Nat.sub_zero,
+        sortByIdx_of_sorted (Mx.WFM.row hw i).1, Mx.getD_eq, List.getElem?_eq_getElem hi']
+      rfl
+    · rw [if_neg hi, List.getElem?_eq_none_iff.mpr (by rw [hw.1]; omega)]
+  have : CSM.newCSR M.major M.major (cooFrom M.rows 0) false
+      = ⟨M.major, M.major, (CSM.newCSR M.major M.major (cooFrom M.rows 0) false).rows, []⟩ := rfl
+  rw [this, hrows]
+
+/-! ### the sequential store -/
+
+theorem get?_mem {s : Store K} {id : String} {M : CSM K} (h : s.get? id = some M) :
+    (id, M) ∈ s := by
+  unfold Store.get? at h
+  cases hf : s.find? (·.1 == id) with
+  | none => rw [hf] at h; cases h
+  | some p =>
+    rw [hf] at h
+    have hm := List.mem_of_find?_eq_some hf
+    have hp := List.find?_some hf
+    simp only [beq_iff_eq] at hp
+    simp only [Option.map_some, Option.some.injEq] at h
+    obtain ⟨a, b⟩ := p
+    simp only at hp h
+    subst hp; subst h
+    exact hm
+
+theorem find?_filter_ne (s : Store K) (id id' : String) :
+    (s.filter (·.1 != id)).find? (·.1 == id') =
+      if id' = id then none else s.find? (·.1 == id') := by
+  induction s with
+  | nil => simp
+  | cons p s ih =>
+    by_cases hp : p.1 = id
+    · rw [List.filter_cons_of_neg (by simp [hp]), ih]
+      by_cases h : id' = id
+      · rw [if_pos h, if_pos h]
+      · rw [if_neg h, if_neg h, List.find?_cons_of_neg]
+        simp only [beq_iff_eq, hp]
+        exact fun e => h e.symm
+    · rw [List.filter_cons_of_pos (by simp [hp])]
+      by_cases hp' : p.1 = id'
+      · have h : ¬ id' = id := fun e => hp (hp'.trans e)
+        rw [if_neg h, List.find?_cons_of_pos (by simp [hp']), List.find?_cons_of_pos (by simp [hp'])]
+      · rw [List.find?_cons_of_neg (by simp [hp']), List.find?_cons_of_neg (by simp [hp']), ih]
+
+theorem get?_set (s : Store K) (id : String) (m : CSM K) (id' : String) :
+    (Store.set s id m).get? id' = if id' = id then some m else s.get? id' := by
+  unfold Store.set Store.get?
+  by_cases h : id' = id
+  · subst h
+    rw [List.find?_cons_of_pos (by simp), if_pos rfl]; rfl
+  · rw [List.find?_cons_of_neg (by simp only [beq_iff_eq]; exact fun e => h e.symm),
+      find?_filter_ne, if_neg h, if_neg h]
+
+theorem get?_erase (s : Store K) (id id' : String) :
+    (Store.erase s id).get? id' = if id' = id then none else s.get? id' := by
+  unfold Store.erase Store.get?
+  rw [find?_filter_ne]
+  by_cases h : id' = id
+  · rw [if_pos h, if_pos h]; rfl
+  · rw [if_neg h, if_neg h]
+
+theorem mem_set {s : Store K} {id : String} {m : CSM K} {p : String × CSM K}
+    (hp : p ∈ Store.set s id m) : p = (id, m) ∨ p ∈ s := by
+  unfold Store.set at hp
+  rcases List.mem_cons.mp hp with h | h
+  · exact Or.inl h
+  · exact Or.inr (List.mem_filter.mp h).1
+
+theorem mem_erase {s : Store K} {id : String} {p : String × CSM K}
+    (hp : p ∈ Store.erase s id) : p ∈ s := (List.mem_filter.mp hp).1
+
+/-- invariant of a stored matrix: well-formed, square, clean hidden part, no stored zero -/
+structure MatInv (M : CSM K) : Prop where
+  wfm : WFM M
+  square : M.major = M.minor
+  clean : HiddenClean M
+  noZero : NoZero M
+
+/-- invariant of the store -/
+def StoreInv (s : Store K) : Prop := ∀ p ∈ s, MatInv p.2
+
+theorem StoreInv.get {s : Store K} (h : StoreInv s) {id : String} {M : CSM K}
+    (hg : s.get? id = some M) : MatInv M := h _ (get?_mem hg)
+
+theorem StoreInv.set {s : Store K} (h : StoreInv s) (id : String) {M : CSM K} (hM : MatInv M) :
+    StoreInv (Store.set s id M) := by
+  intro p hp
+  rcases mem_set hp with rfl | hp
+  · exact hM
+  · exact h p hp
+
+theorem StoreInv.erase {s : Store K} (h : StoreInv s) (id : String) :
+    StoreInv (Store.erase s id) := fun p hp => h p (mem_erase hp)
+
+theorem MatInv.merge {A B : CSM K} (hA : MatInv A) (hB : MatInv B) : MatInv (A.merge B).1 := by
+  refine ⟨Mx.merge_wfm hA.wfm hA.clean hB.wfm, ?_, Mx.merge_hiddenClean hA.clean B, ?_⟩
+  · rw [Mx.merge_major, Mx.merge_minor, hA.square, hB.square]
+  · intro i e he
+    rw [Mx.merge_getD hA.wfm.1 hA.clean hB.wfm.1] at he
+    rcases Mg.mem_mergeSpan he with h | h
+    · exact hA.noZero i e h
+    · exact hB.noZero i e h
+
+/-- a successfully loaded inline matrix with pairwise distinct coordinates satisfies the
+    invariant and denotes the listed values -/
+theorem MatInv.load {m : IMatrix K} {c : CSM K} (h : loadInlineMatrix m = some c)
+    (hd : (m.entries.map fun e => (e.1, e.2.1)).Nodup) :
+    MatInv c ∧ c.major = m.size.toNat ∧ ∀ i j, denRows c.rows i j = denIM m i j := by
+  classical
+  have hv : ValidIMatrix m := by
+    rw [loadInlineMatrix_eq] at h
+    split at h
+    · rename_i hc; exact ⟨by omega, hc.2, hd⟩
+    · cases h
+  obtain ⟨c0, l1, l2, l3, l4, l5, l6, l7⟩ := loadInlineMatrix_valid hv
+  rw [h] at l1
+  injection l1 with l1
+  subst l1
+  exact ⟨⟨l2, l4.trans l5.symm, l3, l7⟩, l4, l6⟩
+
+/-- with no stored zero, a cell is stored exactly when its dense value is non-zero -/
+theorem stored_iff_ne_zero {M : CSM K} (hw : WFM M) (hnz : NoZero M) (i j : Nat) :
+    (∃ e ∈ M.rows.getD i [], e.idx = j) ↔ denRows M.rows i j ≠ 0 := by
+  constructor
+  · rintro ⟨e, he, rfl⟩
+    unfold denRows
+    rw [Mg.denE_of_mem (Mx.WFM.row hw i).1 he]
+    exact hnz i e he
+  · intro h
+    exact exists_mem_of_denE_ne_zero h
 
 end EtVerif.OapiL
